@@ -265,3 +265,31 @@ package core
 //@ writers [C06] directive.Directive.Children : (*directive.Directive).AppendChild, (directive.Directive).CopyWoParentAndChildren
 //@ writers [C06] JApiCore.currentContextDirective : (*JApiCore).processContext, (*JApiCore).closeLastExplicitContext, (*JApiCore).processPaste, (*JApiCore).processDirective
 //@ writers [C06] JApiCore.currentDirective : (*JApiCore).processCurrentDirective, (*JApiCore).setCurrentDirective, NewJApiCore
+
+// ---------------------------------------------------------------- the scan loops (C02)
+
+// The composition of the per-lexeme contracts (next, processInclude, Scanner.Next) along the two scan loops is NOT
+// discharged here: the VCs carrying the full core invariant through drainCurrentScanner / scanProject exceed the solver
+// time limits. The three callees of scanProject are therefore ASSUMED to keep the include stack well formed; what is
+// proved is the trace clause of C02 for scanProject itself: every error leaving it carries the include chain of the
+// scanner stack at that moment (the deferred call covers all return paths).
+
+//@ func (*JApiCore).drainCurrentScanner
+//@   trusted
+//@   requires core != nil && StackInv(core.scannersStack)
+//@   ensures core.scannersStack == old(core.scannersStack) && StackInv(core.scannersStack)
+
+//@ func (*JApiCore).isScanningFinished
+//@   trusted
+//@   requires core != nil && StackInv(core.scannersStack)
+//@   ensures core.scannersStack == old(core.scannersStack) && StackInv(core.scannersStack)
+
+//@ func (*JApiCore).scanProject$1
+//@   inline
+
+//@ func (*JApiCore).scanProject
+//@   tag C02
+//@   requires core != nil && StackInv(core.scannersStack)
+//@   ensures [C02] je != nil && len(core.scannersStack.stack) > 0 ==> len(je.includeTrace) > 0
+//@   unclaimed #requires@processEOF the scan-level composition of CoreScanInv is not discharged (see comment above)
+//@   loop 1 invariant core != nil && StackInv(core.scannersStack)
